@@ -120,6 +120,16 @@ func c11History(c *rt.Ctx, h int) {
 	prefix := func(p string) string { return Q.Join(dir, viewAbs(V, vcwd, p)) }
 	curUser := 0
 	for i := 0; i < 100; i++ {
+		// nothing in this history changes the user, umask or current directory of the parent itself: whatever a call
+		// through a view did to them is a leak (and would make the twin parents answer differently from here on)
+		if P.User().Name() != pu0 || P.UMask() != pm0 || mustWd(P) != pd0 {
+			last := "the set-up"
+			if len(hist) > 0 {
+				last = hist[len(hist)-1]
+			}
+			c.Disagree("view-state|leaks-into-parent|history", fmt.Sprintf("Sub(%q): after %s the file system the view was created from has user %s (was %s), umask %04o (was %04o), cwd %s (was %s)", dir, last, P.User().Name(), pu0, uint32(P.UMask()), uint32(pm0), mustWd(P), pd0), replay())
+			return
+		}
 		s := fsx.Snap(Q, dir, fsx.SnapOpts{})
 		// paths of the twin's subtree, expressed in the view's namespace
 		var recs []fsx.Rec
